@@ -29,6 +29,12 @@ def one(rng, system):
     cfg = treegen.Cfg(n_min=1, n_max=10, disc=disc, p_disc=0.5, p_unary=0.25, p_punct=0.1,
                       labels=treegen.LABELS if rng.random() < 0.3 else treegen.PLAIN_LABELS, none_fields=False, max_arity=5)
     t = treegen.gen_tree(rng, cfg)
+    if rng.random() < 0.15:
+        # tokens that contain a space character which is not an ASCII blank: one token, one field of the written sentence
+        x = rng.choice(trees.unordered_terminals(t))
+        x.data['word'] = rng.choice(["10\u00a0000", "a\u2009b", "x\u3000y", "n\u0085l"])
+        if rng.random() < 0.4:
+            x.data['label'] = "C\u00a0D"
     calls = []
     if rng.random() < 0.3:
         calls.append(("add_topnode", {}))
@@ -63,7 +69,7 @@ def one(rng, system):
         lines.append(Line("pred", "P.C10", [system, a, out]))
         s = ",".join("%s/%s" % (proto.enc_s(w), proto.enc_s(p)) for (w, p) in sent)
         lines.append(Line("pred", "P.C10.sentence", [a, s]))
-        if rng.random() < 0.2:
+        if rng.random() < 0.35:
             pos = rng.random() < 0.5
             with cli.Scratch() as sc:
                 with quiet():
@@ -71,6 +77,8 @@ def one(rng, system):
                 txt = sc.read("o")
             lines.append(Line("corr", "plain_line", ["t" if pos else "f", a, out],
                               proto.enc_s(txt[:-1]) if txt.endswith("\n") and txt.count("\n") == 1 else "not-one-line"))
+            if txt.endswith("\n") and txt.count("\n") == 1:
+                lines.append(Line("pred", "P.C10.line", ["t" if pos else "f", a, proto.enc_s(txt[:-1])]))
     else:
         l = Line("pred", "P.C10", [system, a, ""], note="oracle raised " + out)
         l.expect = "no-error-expected"
